@@ -2,6 +2,7 @@
 //! canonical result line per op.  The Lean driver `zmqmodel <engine>` reads the same lines.
 mod alloc;
 mod codec;
+mod endpoint;
 mod tables;
 mod util;
 
@@ -30,6 +31,16 @@ fn main() {
                 let r = e.op(&words);
                 writeln!(out, "{}", r).unwrap();
                 out.flush().unwrap();
+            }
+        }
+        "endpoint" => {
+            for line in stdin.lock().lines() {
+                let line = line.unwrap();
+                let words: Vec<&str> = line.split_whitespace().collect();
+                if words.is_empty() || words[0].starts_with('#') {
+                    continue;
+                }
+                writeln!(out, "{}", endpoint::op(&words)).unwrap();
             }
         }
         "tables" => {
